@@ -33,6 +33,8 @@ class Module:
             _normalise_comparisons(self.tree)
         if os.environ.get("COBASTATIC_CANON_RET", "1") != "0":
             _inline_return_temporaries(self.tree)
+        if os.environ.get("COBASTATIC_CANON_AUG", "1") != "0":
+            _fold_numeric_increments(self.tree)
         if os.environ.get("COBASTATIC_CANON_IF", "1") != "0":
             _orient_two_armed_conditionals(self.tree)
         for parent in ast.walk(self.tree):
@@ -96,6 +98,35 @@ def _normalise_annotations(tree: ast.AST) -> None:
                 if not out:
                     out = [ast.copy_location(ast.Pass(), b[0])]
                 b[:] = out
+
+
+def _fold_numeric_increments(tree: ast.AST) -> None:
+    """`x = x + c` / `x = c + x` / `x = x - c` with a plain name x and a numeric literal c becomes `x += c` / `x -= c` (numbers have no in-place addition, the two
+    spellings are one statement): rules that look for a counter being advanced see one spelling."""
+    for parent_ in ast.walk(tree):
+        for field in ("body", "orelse", "finalbody"):
+            stmts = getattr(parent_, field, None)
+            if not isinstance(stmts, list):
+                continue
+            for i, st in enumerate(stmts):
+                if not (isinstance(st, ast.Assign) and len(st.targets) == 1 and isinstance(st.targets[0], ast.Name) and isinstance(st.value, ast.BinOp)
+                        and isinstance(st.value.op, (ast.Add, ast.Sub))):
+                    continue
+                x, l, r = st.targets[0].id, st.value.left, st.value.right
+
+                def num(e):
+                    return isinstance(e, ast.Constant) and isinstance(e.value, (int, float)) and not isinstance(e.value, bool)
+                if isinstance(l, ast.Name) and l.id == x and num(r):
+                    c = r
+                elif isinstance(st.value.op, ast.Add) and isinstance(r, ast.Name) and r.id == x and num(l):
+                    c = l
+                else:
+                    continue
+                new = ast.AugAssign(target=ast.Name(x, ast.Store()), op=st.value.op, value=c)
+                ast.copy_location(new, st)
+                ast.copy_location(new.target, st.targets[0])
+                new.end_lineno, new.end_col_offset = getattr(st, "end_lineno", st.lineno), getattr(st, "end_col_offset", 0)
+                stmts[i] = new
 
 
 def _orient_two_armed_conditionals(tree: ast.AST) -> None:
